@@ -95,7 +95,17 @@ func GenLCase(seed uint64) *LCase {
 		}
 		from.imports = append(from.imports, sp)
 	}
+	// compiled modules (a model in text-proto form) inside and outside the root: module
+	// arguments with these extensions take their own path through the command line
+	files = append(files, &lfile{abs: in("lib/compiled.textpb"), app: "InPb"})
+	if c.Root != "/" {
+		files = append(files, &lfile{abs: "/secret/compiled.textpb", app: "OutPb"})
+	}
 	for _, f := range files {
+		if strings.HasSuffix(f.abs, ".textpb") {
+			c.Files[f.abs] = fmt.Sprintf("apps: {\n key: \"%s\"\n value: {\n  name: {\n   part: \"%s\"\n  }\n }\n}\n", f.app, f.app)
+			continue
+		}
 		var b strings.Builder
 		for _, im := range f.imports {
 			b.WriteString("import " + im + "\n")
@@ -107,6 +117,9 @@ func GenLCase(seed uint64) *LCase {
 		c.Files[path.Join(c.Root, c.Marker, "keep")] = ""
 	}
 	// module argument
+	if r.Chance(0.15) {
+		mod = files[len(files)-1-r.Intn(min(2, len(files)))] // one of the compiled modules
+	}
 	if c.Explicit {
 		rel := strings.TrimPrefix(strings.TrimPrefix(mod.abs, c.Root), "/")
 		if !strings.HasPrefix(mod.abs, strings.TrimSuffix(c.Root, "/")+"/") {
@@ -310,7 +323,7 @@ func RunLCaseExec(c *LCase, cnt core.Counters, exec Exec, allow []string) (*LRes
 	}
 	for _, a := range res.Apps {
 		for _, p := range core.SortedKeys(c.Files) {
-			if strings.HasPrefix(c.Files[p], a+":") || strings.Contains(c.Files[p], "\n"+a+":") {
+			if strings.HasPrefix(c.Files[p], a+":") || strings.Contains(c.Files[p], "\n"+a+":") || strings.Contains(c.Files[p], " key: \""+a+"\"") {
 				if !(expRoot == "/" || strings.HasPrefix(p, expRoot+"/")) {
 					vs = append(vs, V{Class: "outside-content-compiled", Detail: fmt.Sprintf("application %s, defined only in %s outside root %q, is in the model", a, p, expRoot)})
 				}
@@ -436,6 +449,14 @@ func expectL(c *LCase, expRoot string) lexpect {
 			continue
 		}
 		relDir := path.Dir(it.rel)
+		if strings.HasSuffix(full, ".textpb") {
+			for _, line := range strings.Split(content, "\n") {
+				if a, ok := strings.CutPrefix(line, " key: \""); ok {
+					apps[strings.TrimSuffix(a, "\"")] = true
+				}
+			}
+			continue
+		}
 		for _, line := range strings.Split(content, "\n") {
 			if sp, ok := strings.CutPrefix(line, "import "); ok {
 				if path.Ext(sp) == "" {
